@@ -274,7 +274,7 @@ func (i ItemCollection) Equals(with Item) bool {
 			return nil
 		}
 		for _, it := range i {
-			if !w.Contains(it.GetLink()) {
+			if !w.Contains(it) {
 				result = false
 				return nil
 			}
